@@ -105,14 +105,65 @@ func childMain() {
 }
 
 type child struct {
-	cmd    *exec.Cmd
-	to     *os.File
-	from   *os.File
-	stderr *bytes.Buffer
-	spawns int
+	cmd     *exec.Cmd
+	to      *os.File
+	from    *os.File
+	stderr  *bytes.Buffer
+	spawns  int
+	baseVsz int // address-space size right after start-up, MiB
 }
 
-var theChild = &child{}
+// childPool keeps one child in use and one started ahead, so that the start-up
+// of a replacement (after a mutant killed the child) is off the critical path.
+type childPool struct {
+	cur   *child
+	spare chan spawned
+}
+
+type spawned struct {
+	c   *child
+	err error
+}
+
+var theChild = &childPool{}
+
+func (p *childPool) spawnSpare() {
+	ch := make(chan spawned, 1)
+	p.spare = ch
+	go func() {
+		c := &child{}
+		err := c.start()
+		ch <- spawned{c, err}
+	}()
+}
+
+func (p *childPool) run(data []byte) (reply string, fatal string, err error) {
+	if p.cur == nil || p.cur.cmd == nil {
+		if p.spare == nil {
+			p.spawnSpare()
+		}
+		r := <-p.spare
+		p.spare = nil
+		if r.err != nil {
+			return "", "", r.err
+		}
+		p.cur = r.c
+		p.spawnSpare()
+	}
+	return p.cur.run(data)
+}
+
+func (p *childPool) stop() {
+	if p.cur != nil {
+		p.cur.stop()
+	}
+	if p.spare != nil {
+		if r := <-p.spare; r.c != nil {
+			r.c.stop()
+		}
+		p.spare = nil
+	}
+}
 
 func (c *child) start() error {
 	pr, cw, err := os.Pipe() // parent -> child
@@ -148,6 +199,7 @@ func (c *child) start() error {
 			c.stop()
 			return fmt.Errorf("child did not start: %v: %.300s", e, c.stderr.String())
 		}
+		c.baseVsz, _ = statmMiB(cmd.Process.Pid)
 	case <-time.After(3 * time.Minute):
 		c.stop()
 		return fmt.Errorf("child did not start within 3 minutes")
@@ -172,9 +224,7 @@ func (c *child) stop() {
 // and with "other: " for every other death (stack overflow, signal, ...).
 func (c *child) run(data []byte) (reply string, fatal string, err error) {
 	if c.cmd == nil {
-		if err := c.start(); err != nil {
-			return "", "", err
-		}
+		return "", "", fmt.Errorf("child not running")
 	}
 	var hdr [4]byte
 	binary.LittleEndian.PutUint32(hdr[:], uint32(len(data)))
@@ -216,7 +266,7 @@ func (c *child) run(data []byte) (reply string, fatal string, err error) {
 		return r.s, "", nil
 	case <-time.After(childTimeout):
 		// how much memory has it touched? (a stalled giant allocation is being zeroed)
-		rss := rssMiB(c.cmd.Process.Pid)
+		vsz, rss := statmMiB(c.cmd.Process.Pid)
 		// ask the runtime where it is, then kill
 		_ = c.cmd.Process.Signal(syscall.SIGQUIT)
 		done := make(chan struct{})
@@ -233,6 +283,9 @@ func (c *child) run(data []byte) (reply string, fatal string, err error) {
 		c.cmd = nil
 		kind := "other: "
 		dump := c.stderr.String()
+		if d := os.Getenv("WIRE_DEBUG_DUMPS"); d != "" {
+			_ = os.WriteFile(fmt.Sprintf("%s/dump-%d.txt", d, time.Now().UnixNano()), []byte(fmt.Sprintf("vsz=%d (+%d) rss=%d MiB\n%s", vsz, vsz-c.baseVsz, rss, dump)), 0o644)
+		}
 		for _, m := range []string{"runtime.memclrNoHeapPointers", "runtime.mallocgc", "runtime.makeslice", "runtime.growslice", "runtime.sysMap", "runtime.sysAlloc", "runtime.(*mheap).alloc", "runtime.(*mheap).grow", "runtime.sysUsed", "runtime.madvise"} {
 			if strings.Contains(dump, m+"(") {
 				kind = "alloc: " // still obtaining / zeroing a giant allocation
@@ -242,9 +295,11 @@ func (c *child) run(data []byte) (reply string, fatal string, err error) {
 				break
 			}
 		}
-		if kind == "other: " && rss >= 256 {
+		// the input is a few KiB: an address space grown by hundreds of MiB since
+		// start-up is a giant allocation in progress (mapped, being zeroed)
+		if kind == "other: " && (vsz-c.baseVsz >= 256 || rss >= 256) {
 			kind = "alloc: "
-			where = fmt.Sprintf("(resident set %d MiB) %s", rss, where)
+			where = fmt.Sprintf("(address space +%d MiB, resident %d MiB) %s", vsz-c.baseVsz, rss, where)
 		}
 		if kind == "other: " && !strings.Contains(dump, "goroutine ") {
 			// no stack dump: cannot tell a stalled allocation from another hang
@@ -317,17 +372,13 @@ func goroutine1(dump string) string {
 	return strings.Join(out, " < ")
 }
 
-// rssMiB reads the resident set size of pid from /proc.
-func rssMiB(pid int) int {
+// statmMiB reads the virtual size and resident set of pid from /proc.
+func statmMiB(pid int) (vsize, rss int) {
 	b, err := os.ReadFile(fmt.Sprintf("/proc/%d/statm", pid))
 	if err != nil {
-		return 0
+		return 0, 0
 	}
-	f := strings.Fields(string(b))
-	if len(f) < 2 {
-		return 0
-	}
-	var pages int
-	fmt.Sscan(f[1], &pages)
-	return pages * os.Getpagesize() >> 20
+	var v, r int
+	fmt.Sscan(string(b), &v, &r)
+	return v * os.Getpagesize() >> 20, r * os.Getpagesize() >> 20
 }
